@@ -3,6 +3,7 @@ package p2j
 import (
 	"context"
 	"fmt"
+	"math"
 
 	"github.com/cloudwego/dynamicgo/http"
 	"github.com/cloudwego/dynamicgo/internal/json"
@@ -86,6 +87,14 @@ func (self *BinaryConv) do(ctx context.Context, src []byte, desc *proto.TypeDesc
 
 	*out = json.EncodeObjectEnd(*out)
 	return err
+}
+
+// JSON has no spelling for NaN and the infinities (EncodeFloat64 would emit nothing for them)
+func checkFinite(v float64) error {
+	if math.IsNaN(v) || math.IsInf(v, 0) {
+		return wrapError(meta.ErrConvert, fmt.Sprintf("float value %v cannot be represented in JSON", v), nil)
+	}
+	return nil
 }
 
 // Parse ProtoData into JSONData by DescriptorType
@@ -191,13 +200,19 @@ func (self *BinaryConv) unmarshalSingular(ctx context.Context, resp http.Respons
 		if e != nil {
 			return wrapError(meta.ErrRead, "unmarshal Floatkind error", e)
 		}
+		if e := checkFinite(float64(v)); e != nil {
+			return e
+		}
 		*out = json.EncodeFloat64(*out, float64(v))
 	case proto.DOUBLE:
 		v, e := p.ReadDouble()
 		if e != nil {
 			return wrapError(meta.ErrRead, "unmarshal Doublekind error", e)
 		}
-		*out = json.EncodeFloat64(*out, float64(v))
+		if e := checkFinite(v); e != nil {
+			return e
+		}
+		*out = json.EncodeFloat64(*out, v)
 	case proto.STRING:
 		v, e := p.ReadString(false)
 		if e != nil {
